@@ -143,8 +143,13 @@ def run_lattice(spec, rec, clauses):
             occ.append(tuple((c >> k) & 1 for k in range(ns)))
             c >>= ns
         rng = core.sub_rng(spec["seed"], PROP_FOR_RNG, spec["lattice"], T, code)
-        tm = code % 3
-        for hist in tracking.lattice_cases(rng, sites, bounds, occ, time_mode=tm):
+        tm = code % len(tracking.LATTICE_TIME_AXES)
+        origin = [0.0, -0.5 * len(sites), 10.0, 3.25][(code // 5) % 4]
+        for hist in tracking.lattice_cases(rng, sites, bounds, occ, time_mode=tm, origin=origin):
+            if clauses == "C07" and code % 4 == 3:
+                # C07 speaks about consecutive frames of any time course: also decreasing times
+                hist["times"] = [-float(t) for t in hist["times"]]
+                hist["time_order"] = "decreasing"
             if clauses == "C07" and not tracking.frames_overlap_free(hist):
                 rec.count("overlapping_frames_skipped")
                 continue
